@@ -9,7 +9,7 @@
 //   w  wait() on every task set used so far
 //   z<n> pool.resize(n)            p  setSignalingWake(false, 200us) (poll mode)     e  setSignalingWake(true)
 //   k  quiescent-point check (wait the task sets, then see below)
-//   X  any one submission step, Z any one of z0 z1 z2 - resolved by mc::choose, i.e. one run explores the whole family of
+//   X  any one submission step, Y any one of s q b2, Z any one of z0 z1 z2 - resolved by mc::choose, i.e. one run explores the whole family of
 //      histories jointly with their schedules (the violation message names the concrete history)
 // A quiescent-point check also runs at the end of every history, after the task sets were destroyed.
 // `t1` = optional second external thread running a program over {s,q,b<k>} concurrently with T0's history.
@@ -27,9 +27,13 @@
 // constructed pool of that size. Oracle (probe): the public effect only - on a pool with >= 1 thread, schedule(f)
 // at a quiescent point must queue f, as a fresh pool does, and not run it inline on the caller.
 #include "mc_harness.h"
+#include "submit_cover.h"
+#include "submit_stacknorm.h"
 #include <new>
 #include <dispenso/task_set.h>
 #include <dispenso/thread_pool.h>
+
+SUBMIT_STACKNORM_INSTALL();
 
 namespace {
 constexpr int kMax = 48;
@@ -66,13 +70,13 @@ struct State {
     int kd = kind[id].get();
     if (self == submitter[id].get() && in_call[id].get()) {
       inline_run[id].set(1);
-      mc::cover("ran_inline");
+      submit_cover::mark("ran_inline");
     } else if (self == t0_id && in_resize.get()) {
-      mc::cover(kd == kRing ? "resize_ran_ring_candidate" : kd == kPlaced ? "resize_ran_placed_task" : "resize_ran_queue_task");
+      submit_cover::mark(kd == kRing ? "resize_ran_ring_candidate" : kd == kPlaced ? "resize_ran_placed_task" : "resize_ran_queue_task");
     } else if (self == t0_id && in_wait.get()) {
-      mc::cover("wait_ran_task");
+      submit_cover::mark("wait_ran_task");
     } else {
-      mc::cover("worker_ran_task");
+      submit_cover::mark("worker_ran_task");
     }
     finished.add(1);
   }
@@ -99,6 +103,8 @@ struct Runner {
   long mult, smult;
   bool probe_oracle;
   bool poll = false;
+  bool t1_active = false;
+  mc::Shared<int> t1_done{0};
   std::string done_prefix;
   Lazy<dispenso::TaskSet> ts;
   Lazy<dispenso::ConcurrentTaskSet> ch, cl;
@@ -118,27 +124,33 @@ struct Runner {
     st.in_wait.set(0);
   }
 
-  // model-level wait; true if quiescence in the sense of the header comment was established
+  // model-level wait; true if quiescence in the sense of the header comment was established. The three conditions are
+  // evaluated together, at one instant, and re-evaluated by T0 itself after it has been resumed (other threads may
+  // have run between the predicate turning true and T0 continuing); T0 then reads the counter without a scheduling
+  // point in between.
   bool quiesce() {
-    mc::block_until([&] { return st.finished.get() == st.submitted.get(); });
-    long nt = raw_threads();
-    if (nt == 0) return true;
-    if (poll) return false;
-    mc::block_until([&] {
+    auto all_done = [&] { return (!t1_active || t1_done.get() != 0) && st.finished.get() == st.submitted.get(); };
+    auto parked = [&] {
+      long nt = raw_threads();
+      if (nt == 0 || poll) return true;
       auto* ws = pool.wakeState_.a_.load(std::memory_order_relaxed);
       return ws && (long)ws->totalSleeping_.a_.load(std::memory_order_relaxed) == nt;
-    });
-    return true;
+    };
+    auto pred = [&] { return all_done() && parked(); };
+    do {
+      mc::block_until(pred);
+    } while (!pred());
+    return raw_threads() == 0 || !poll;
   }
 
   void check(const char* where) {
     wait_sets();
     if (!quiesce()) {
-      mc::cover("check_skipped_poll_mode");
+      submit_cover::mark("check_skipped_poll_mode");
       return;
     }
     long nt = raw_threads(), wr = raw_work(), lf = (long)pool.poolLoadFactor_.a_.load(std::memory_order_relaxed);
-    mc::cover(nt == 0 ? "quiescent_check_n0" : nt == 1 ? "quiescent_check_n1" : "quiescent_check_n2plus");
+    submit_cover::mark(nt == 0 ? "quiescent_check_n0" : nt == 1 ? "quiescent_check_n1" : "quiescent_check_n2plus");
     MC_CHECK(lf == nt * mult, "poolLoadFactor_ is %ld, a fresh pool of %ld thread(s) has %ld (after '%s', %s)", lf, nt, nt * mult, done_prefix.c_str(), where);
     if (!probe_oracle) {
       MC_CHECK(wr == 0,
@@ -153,7 +165,7 @@ struct Runner {
     pool.schedule([this, id] { st.body(id); });
     st.done(id, 1);
     bool inl = st.inline_run[id].get() != 0;
-    mc::cover(inl ? "probe_ran_inline" : "probe_was_queued");
+    submit_cover::mark(inl ? "probe_ran_inline" : "probe_was_queued");
     MC_CHECK(!inl,
              "schedule() on an idle pool of %ld thread(s) ran the functor inline on the caller where a fresh pool queues it (pending-work counter reads %ld, load factor %ld) "
              "after history '%s' (%s)",
@@ -165,7 +177,7 @@ struct Runner {
     long nt = raw_threads();
     long out = (long)set.outstandingTaskCount_.a_.load(std::memory_order_relaxed);
     bool fast = k * 4 >= nt && k <= nt && (long)pool.numRings_.a_.load(std::memory_order_relaxed) >= k && out <= (long)set.taskSetLoadFactor_;
-    mc::cover(fast ? "bulk_ring_fast_path" : "bulk_standard_path");
+    submit_cover::mark(fast ? "bulk_ring_fast_path" : "bulk_standard_path");
   }
 
   template <class Set>
@@ -198,12 +210,12 @@ struct Runner {
       int id = st.fresh(1, kPool);
       pool.schedule([this, id] { st.body(id); });
       st.done(id, 1);
-      mc::cover("pool_schedule");
+      submit_cover::mark("pool_schedule");
     } else if (op == 'q') {
       int id = st.fresh(1, kPool);
       pool.schedule([this, id] { st.body(id); }, dispenso::ForceQueuingTag());
       st.done(id, 1);
-      mc::cover("pool_schedule_fq");
+      submit_cover::mark("pool_schedule_fq");
     } else if (op == 'b') {
       int k = h[++pc] - '0';
       int base = st.fresh(k, kPool);
@@ -212,7 +224,7 @@ struct Runner {
         return [this, id] { st.body(id); };
       });
       st.done(base, k);
-      mc::cover("pool_bulk");
+      submit_cover::mark("pool_bulk");
     } else {
       return false;
     }
@@ -229,6 +241,8 @@ struct Runner {
         out += subs[mc::choose(14)];
       else if (ch == 'Z')
         out += rez[mc::choose(3)];
+      else if (ch == 'Y')
+        out += subs[mc::choose(3)]; // pool-only submissions: s q b2
       else
         out += ch;
     }
@@ -242,30 +256,30 @@ struct Runner {
       if (pool_step(h, pc)) {
       } else if (op == 't' || op == 'u') {
         set_single(TS(), kSetQueue, op == 'u');
-        mc::cover(op == 'u' ? "ts_schedule_fq" : "ts_schedule");
+        submit_cover::mark(op == 'u' ? "ts_schedule_fq" : "ts_schedule");
       } else if (op == 'r' || op == 'R') {
         int k = h[++pc] - '0';
         if (op == 'r') note_ring_path(TS(), k);
         set_bulk(TS(), op == 'r' ? kRing : kSetQueue, k, op == 'R');
-        mc::cover(op == 'r' ? "ts_bulk" : "ts_bulk_fq");
+        submit_cover::mark(op == 'r' ? "ts_bulk" : "ts_bulk_fq");
       } else if (op == 'c' || op == 'd') {
         set_single(CH(), kPlaced, op == 'd');
-        mc::cover(op == 'd' ? "ctsh_schedule_fq" : "ctsh_schedule");
+        submit_cover::mark(op == 'd' ? "ctsh_schedule_fq" : "ctsh_schedule");
       } else if (op == 'C') {
         int k = h[++pc] - '0';
         set_bulk(CH(), kPlaced, k, false);
-        mc::cover("ctsh_bulk");
+        submit_cover::mark("ctsh_bulk");
       } else if (op == 'l') {
         set_single(CL(), kSetQueue, false);
-        mc::cover("ctsl_schedule");
+        submit_cover::mark("ctsl_schedule");
       } else if (op == 'L') {
         int k = h[++pc] - '0';
         note_ring_path(CL(), k);
         set_bulk(CL(), kRing, k, false);
-        mc::cover("ctsl_bulk");
+        submit_cover::mark("ctsl_bulk");
       } else if (op == 'w') {
         wait_sets();
-        mc::cover("wait");
+        submit_cover::mark("wait");
       } else if (op == 'z') {
         int n = h[++pc] - '0';
         bool pending = st.finished.get() != st.submitted.get();
@@ -273,8 +287,8 @@ struct Runner {
         st.in_resize.set(1);
         pool.resize(n);
         st.in_resize.set(0);
-        if (pending && before != n) mc::cover("resize_with_unfinished_work");
-        mc::cover(n == 0 ? "resize_to_0" : n > before ? "resize_up" : n < before ? "resize_down" : "resize_same");
+        if (pending && before != n) submit_cover::mark("resize_with_unfinished_work");
+        submit_cover::mark(n == 0 ? "resize_to_0" : n > before ? "resize_up" : n < before ? "resize_down" : "resize_same");
       } else if (op == 'p' || op == 'e') {
         st.in_resize.set(1);
         if (op == 'p')
@@ -283,7 +297,7 @@ struct Runner {
           pool.setSignalingWake(true, std::chrono::microseconds(dispenso::kDefaultSleepLenUs));
         st.in_resize.set(0);
         poll = op == 'p';
-        mc::cover(op == 'p' ? "set_poll_mode" : "set_wake_mode");
+        submit_cover::mark(op == 'p' ? "set_poll_mode" : "set_wake_mode");
       }
       done_prefix.append(h, start, pc - start + 1);
       if (op == 'k') check("explicit check");
@@ -293,20 +307,25 @@ struct Runner {
 } // namespace
 
 MC_HARNESS(acct) {
+  submit_cover::reset();
   long n = P("n", 1), mult = P("mult", 1), smult = P("smult", 4);
-  std::string h = P.s("h", ""), t1 = P.s("t1", "");
+  std::string h = Runner::expand(P.s("h", "")), t1 = Runner::expand(P.s("t1", ""));
+  // the external thread t1 enqueues without a producer token and resize() reshuffles glibc's stack cache: see submit_stacknorm.h
+  submit_stacknorm::g_enabled = !t1.empty() && t1 != "-";
   State st;
   st.t0_id = mc_self_id();
   {
     dispenso::ThreadPool pool((size_t)n, (size_t)mult);
     Runner r{pool, st, mult, smult, P.s("oracle", "counter") == "probe"};
     if (!t1.empty() && t1 != "-") {
-      mc::cover("concurrent_submitter");
+      submit_cover::mark("concurrent_submitter");
+      r.t1_active = true;
       mc::spawn([&] {
         for (size_t pc = 0; pc < t1.size(); pc++) r.pool_step(t1, pc);
+        r.t1_done.set(1);
       });
     }
-    r.run(Runner::expand(h));
+    r.run(h);
     mc::join_all();
     // the task sets go first (their destructors wait), then the final quiescent-point check
     r.wait_sets();
@@ -318,7 +337,7 @@ MC_HARNESS(acct) {
       pool.resize(0);
       st.in_resize.set(0);
       r.done_prefix += "z0";
-      mc::cover("final_resize0_in_poll_mode");
+      submit_cover::mark("final_resize0_in_poll_mode");
     }
     r.check("end of history");
     mc::observe("work_remaining", r.raw_work());
@@ -330,4 +349,5 @@ MC_HARNESS(acct) {
     inl += st.inline_run[i].get();
   }
   mc::observe("inline", inl);
+  submit_cover::flush();
 }
